@@ -15,6 +15,7 @@ PROPS = ['PGA.Props.C18']
 GEN = ['YamlUnits']
 OBLIGATIONS = ['PGA.YamlFormat.' + t for t in [
     'C18_format_total', 'C18_keys_are_present_data', 'C18_zero_values_emitted', 'C18_roundtrip_dimensional',
+    'C18_roundtrip_any_units',
     'C18_roundtrip_values_exact', 'C18_roundtrip_nd', 'C18_roundtrip_nd_exact', 'C18_temperatures_six_digits',
     'C18_dimensional_six_digits']]
 RULE = ('a case = one correlation (0-15 heat-capacity points; reference enthalpy/entropy present/absent/zero/negative/tiny/huge; '
